@@ -157,6 +157,16 @@ func readProgress(part string, shard int) map[string]any {
 		return m
 	}
 	f := strings.Split(string(body), "\x1f")
+	if data[3] == 'H' {
+		names := []string{"sub", "method", "template", "path", "class", "cred", "authorization", "content_type", "content_type_value", "body", "precondition", "kind"}
+		m := map[string]any{}
+		for i, n := range names {
+			if i < len(f) {
+				m[n] = f[i]
+			}
+		}
+		return m
+	}
 	for len(f) < 5 {
 		f = append(f, "")
 	}
